@@ -3,9 +3,13 @@ S = "aw_datastore.storages.sqlite.SqliteStorage."
 PROP = dict(
     id="C06",
     level="other",
-    contract_modules=["contracts.models", "contracts.sqlite"],
-    spec_modules=["contracts.sqlite"],
-    functions=[dict(fn=S + "commit", rt_skip=True),
+    contract_modules=["contracts.models", "contracts.sqlite", "contracts.migration"],
+    spec_modules=["contracts.sqlite", "contracts.migration"],
+    functions=[dict(fn=S + "__init__", rt_skip=True),
+               dict(fn="aw_datastore.migration.check_for_migration", rt_skip=True),
+               dict(fn="aw_datastore.migration.peewee_v2_to_sqlite_v1", rt_skip=True),
+               dict(fn=S + "get_metadata", rt_skip=True),
+               dict(fn=S + "commit", rt_skip=True),
                dict(fn=S + "conditional_commit", rt_skip=True),
                dict(fn=S + "delete", rt_skip=True),
                dict(fn=S + "replace", rt_skip=True),
@@ -15,14 +19,16 @@ PROP = dict(
                dict(fn=S + "create_bucket", rt_skip=True),
                dict(fn=S + "delete_bucket", rt_skip=True)],
     timeout_s=20,
-    extra=[lambda run: run.storage_mode("c06", what="what a second connection sees after every operation (= what survives a crash) on sqlite (lazy commit) and peewee", backends=["sqlite", "peewee"]), lambda run: run.storage_mode("c06del", runs=1, what="a run of 150 deletions on the lazily committing store", backends=["sqlite"])],
+    extra=[lambda run: run.storage_mode("c06", what="what a second connection sees after every operation (= what survives a crash) on sqlite (lazy commit) and peewee", backends=["sqlite", "peewee"]), lambda run: run.storage_mode("c06del", runs=1, what="a run of 150 deletions on the lazily committing store", backends=["sqlite"]),
+           lambda run: run.storage_mode("c06mig", runs=(6 if run.tier == "quick" else 40), what="the store created next to a legacy database (migration inside __init__), then up to 50 single inserts: pending writes vs the statement counter and the documented bound", backends=["sqlite"])],
     technique="run-time check of the real back ends (bounded); with the sqlite methods proved against contracts over the table state (SQL text parsed from the source)",
-    explanation="deductive (sqlite): commit discipline as the invariant lazy_inv (pending statements <= num_uncommitted_statements <= 50 on the lazy store, 0 pending on the auto-committing one), established by every write method and by conditional_commit; bucket create/delete end with 0 pending statements, and delete_bucket commits exactly once, after its last statement (not split). What a crash preserves given the committed prefix is SQLite's (T-WAL). " 
+    explanation="deductive (sqlite): the constructor establishes the commit discipline (it ends with nothing pending and the counter at 0, also when it has just migrated a legacy database - the defect repaired in c291016 is a failing obligation again when reverted; sqlite3.connect is assumed to open a database that satisfies the schema's constraints: A-DBFILE), and every method keeps it: commit discipline as the invariant lazy_inv (pending statements <= num_uncommitted_statements <= 50 on the lazy store, 0 pending on the auto-committing one), established by every write method and by conditional_commit; bucket create/delete end with 0 pending statements, and delete_bucket commits exactly once, after its last statement (not split). What a crash preserves given the committed prefix is SQLite's (T-WAL). " 
                 "bounded: after every operation of random histories the database file is read through a second connection (what a process started after a crash would see): it must equal the writer's own state after some earlier operation (a prefix in issue order, no operation split), bucket create/update/delete must be visible on return, at most about 50 buffered event writes (deletions included) may be missing on the lazily committing sqlite store, and every completed operation must be visible on peewee. Process death, WAL recovery and fsync themselves are trusted (T-WAL, T-PYSQLITE).",
 )
 
 F = "/repo/aw_datastore/storages/sqlite.py"
 MUTANTS = [
+    (F, "        self.commit()\n\n    def commit(self):", "        self.last_commit = datetime.now()\n        self.num_uncommitted_statements = 0\n\n    def commit(self):", True),   # c291016 reverted: counter reset while the migration's writes are pending
     (F, '            if self.num_uncommitted_statements > 50:\n                self.commit()', '            if self.num_uncommitted_statements > 500:\n                self.commit()', True),   # count threshold 500
     (F, '        cursor = self.conn.execute("DELETE FROM buckets WHERE id = ?", [bucket_id])\n        self.commit()', '        self.commit()\n        cursor = self.conn.execute("DELETE FROM buckets WHERE id = ?", [bucket_id])\n        self.commit()', True),   # delete_bucket split by a commit
     (F, '        cursor = self.conn.execute(query, [event_id, bucket_id])\n        # Deletes are buffered writes as well, they need to be counted and eventually committed\n        self.conditional_commit(1)', '        cursor = self.conn.execute(query, [event_id, bucket_id])\n        # Deletes are buffered writes as well, they need to be counted and eventually committed\n        self.conditional_commit(0)', True),   # deletes not counted
